@@ -18,11 +18,19 @@ C->S : seeded meshes (empty, points only, one triangle, fans, tetrahedra,
        written with nibabel (in-process and as real sub-processes), the VTK
        writer with 0-3 attribute sets, link-mesh-fragments on CSV tables, and
        random / mutated byte strings to the reader.
+       Unit changes: the affine cases are repeated with matrix and translation
+       multiplied by 10^-3, 10^-6, 10^3, 10^6 (mirrors, rotations, shears of
+       both determinant signs combined with a micrometre/nanometre <->
+       millimetre change: |det| down to 1e-18 resp. up to 1e18) - every
+       winding instance enumerated by TLC (S->C) and seeded meshes x integer
+       matrices (C->S).  The sign of the determinant is decided exactly on the
+       integer matrix (Mesh!ScaledWindingClause).
 Everything observed is re-encoded (harness/mesh_driver.py) and judged by TLC
 (Trace_Mesh, oracle layer of Mesh.tla).
 """
 import collections
 import json
+import random
 import string
 
 from .. import mesh_driver as md
@@ -123,6 +131,23 @@ def affine_spec(ctx, bound=8):
     want = rng.choice(["pos", "pos", "neg", "neg", "neg", "zero"])
     return {"v": v, "t": t, "kind": kind, "det": want, "M": md.random_matrix(rng, want),
             "mb": rng.choice([0, 0, 0, 1, 2]),
+            "tr": [rng.randint(-20, 20) for _ in range(3)], "ub": rng.choice([0, 0, 1, 2]),
+            "vdtype": rng.choice(["float32", "float32", "float64"]),
+            "tdtype": rng.choice(["uint32", "uint32", "int32", "int64"]),
+            "shape": rng.choice(["3x4", "4x4"]), "mdtype": rng.choice(["float64", "float64", "int"])}
+
+
+UNIT_CHANGES = [-3, -6, 3, 6]
+
+
+def scaled_affine_spec(rng, sc):
+    """affine case with the unit change 10^sc: tiny (or very large) |det| of
+    either sign, floating-point sign of the determinant certain (uniform scale
+    of a small integer matrix)"""
+    kind, v, t = md.random_mesh(rng, bound=8, max_tris=128)
+    want = rng.choice(["pos", "pos", "neg", "neg", "neg", "neg", "zero"])
+    return {"v": v, "t": t, "kind": kind, "det": want, "M": md.random_matrix(rng, want),
+            "mb": rng.choice([0, 0, 0, 1, 2]), "sc": sc,
             "tr": [rng.randint(-20, 20) for _ in range(3)], "ub": rng.choice([0, 0, 1, 2]),
             "vdtype": rng.choice(["float32", "float32", "float64"]),
             "tdtype": rng.choice(["uint32", "uint32", "int32", "int64"]),
@@ -279,7 +304,8 @@ def sig_of(mode, spec, source, case, clause, pos):
                    oracle_exit=EXIT_NAMES[pos] if 0 <= pos < len(EXIT_NAMES) else "")
     elif mode == "affine":
         sig.update(det_sign=(md.det3(*spec["M"]) > 0) - (md.det3(*spec["M"]) < 0), nv=len(spec["v"]),
-                   nt=len(spec["t"]), kind=spec.get("kind", "gen"), exc=case["res"]["cls"])
+                   nt=len(spec["t"]), kind=spec.get("kind", "gen"), exc=case["res"]["cls"],
+                   unit_change_exp10=spec.get("sc", 0))
     elif mode == "tool":
         xf = spec.get("xf")
         sig.update(expect=spec["expect"], hasxf=bool(xf),
@@ -330,7 +356,10 @@ def run(ctx):
         "small integers in a per-case unit 2^-ub, token lists, directory listings)",
         "geometry cases use integer (dyadic) coordinates and integer matrices so that IEEE arithmetic is "
         "exact; near-zero determinants whose floating-point sign is uncertain are not decided (det = 0 "
-        "only: no crash, vertices moved)",
+        "only: no crash, vertices moved); a determinant that is tiny only through a uniform unit change "
+        "10^-3 / 10^-6 of a small integer matrix IS decided (its sign is that of the integer matrix, and "
+        "its floating-point sign is certain); under such a down-scaling the products are rounded, "
+        "'vertices moved accordingly' then means within 1e-9 result units of the exact position",
         "stored files may be gzip-compressed as <name>.gz (documented layout); link tables have one row "
         "per label; --mesh-dir absent while the info holds a non-default key is not judged",
         "VTK array entries must be decimal numbers (finite inputs only); oracle:VtkMesh only on integer "
@@ -357,6 +386,14 @@ def run(ctx):
         todo.append(("links", links_spec(ctx), "random"))
     for _ in range(n(3, 16)):
         todo.append(("links", links_spec(ctx, via="subproc"), "random"))
+    # unit changes (own generator: the cases above stay the same for a given VERIF_SEED)
+    rng2 = random.Random(ctx.seed * 1000003 + 17 + 7919)
+    gen_aff = [spec for (mode, spec, source) in todo if mode == "affine" and source == "gen"]
+    for k, spec in enumerate(gen_aff):
+        for sc in (UNIT_CHANGES if not ctx.quick else [UNIT_CHANGES[k % 4]]):
+            todo.append(("affine", dict(spec, sc=sc, mb=0, vdtype=("float32", "float64")[k % 2]), "gen-scaled"))
+    for k in range(n(240, 6000)):
+        todo.append(("affine", scaled_affine_spec(rng2, UNIT_CHANGES[k % 4]), "random-scaled"))
 
     cases = []
     for serial, (mode, spec, source) in enumerate(todo):
@@ -364,7 +401,7 @@ def run(ctx):
     ctx.cleanup()
 
     verdicts = {}
-    chunk = ctx.pick(5000, 6000)
+    chunk = ctx.pick(6000, 6000)
     for base in range(0, len(cases), chunk):
         part = cases[base:base + chunk]
         for k, c in enumerate(part):
